@@ -20,15 +20,15 @@ def check(ctx):
                 "(no send on the closed queue); the as-built shutdown that closes after a fixed sleep must be refuted; CachePersist.tla "
                 "for what the next incarnation loads. Code: (1) for each of the four protocols the real run() + shutdown() in one "
                 "process with the workers held at a hook so that the queue is full and the receive loop is blocked sending when "
-                "shutdown runs - the model's counterexample schedule; (2) the built binary, 3 stop/start cycles (SIGTERM and SIGINT "
-                "at seeded offsets) under idle / steady / burst traffic from 8 source addresses: exit status 0 within 5 s, no "
+                "shutdown runs - the model's counterexample schedule; (2) the built binary, 4 (thorough 7) stop/start cycles (SIGTERM and SIGINT "
+                "at seeded offsets, one cycle starting from a much longer unparsable cache file) under idle / steady / burst traffic from 8 source addresses: exit status 0 within 5 s, no "
                 "panic, both cache files load, and after the restart data for every template acknowledged before the signal "
                 "(DecodedCount had counted its datagram) is published without the exporter resending templates. One evaluation "
                 "= one shutdown; distinct by (scenario, cycle, offset).")
     ctx.assumptions += ["a template is 'acknowledged' once the collector's DecodedCount has counted its datagram (templates are sent one at a time against that counter)",
                         "loopback UDP; exit within 5 s is judged on an otherwise idle machine (the bound is 3x the designed 1-2 s)"]
-    ctx.tlc_model("PipelineMC", "mc.cfg", files={"mc.cfg": c12.PIPE_CFG % dict(dg="MCDgrams", early="FALSE", alias="FALSE", close="TRUE")}, timeout=900)
-    ctx.tlc_must_fail("PipelineMC", "dev.cfg", files={"dev.cfg": c12.PIPE_CFG % dict(dg="MCDgrams2", early="FALSE", alias="FALSE", close="FALSE")},
+    c12.pipeline_model(ctx, thorough)
+    ctx.tlc_must_fail("PipelineMC", "dev.cfg", files={"dev.cfg": c12.pipe_cfg(dg="MCDgrams2", bufs="b1, b2, b3, b4", close="FALSE")},
                       expect="NoPanic", workers=16)
     ctx.tlc_model("CachePersistMC", "CachePersistMC.cfg", timeout=600)
     # ---- (1) the model's counterexample schedule on the real run() / shutdown()
@@ -37,13 +37,14 @@ def check(ctx):
     for proto in c12.PROTOS:
         out = os.path.join(d, "sd-%s.json" % proto)
         rc, log, to = ctx.go_run(drv, "TestVerifShutdownFullQueue", timeout=120,
-                                 env={"VERIF_OUT": out, "VERIF_PROTO": proto, "VERIF_PORT": e2e.free_port(__import__("socket").SOCK_DGRAM)})
+                                 env={"VERIF_OUT": out, "VERIF_PROTO": proto, "VERIF_PORT": e2e.free_port(__import__("socket").SOCK_DGRAM),
+                                      "VERIF_HOLD_MS": 8000 if thorough else 3500})
         ctx.count([proto, "full-queue-shutdown"])
         if rc != 0 or not os.path.exists(out):
             why = next((l for l in log.split("\n") if l.startswith(("panic:", "fatal error:"))), None)
             if why or "panic" in log:
                 ctx.violation("%s: shutdown while the receive loop waits for room in a full queue: the process died: %s" % (proto, why or log[-300:]),
-                              {"proto": proto, "schedule": "workers stalled with a datagram each, 1000 queued, receive loop blocked sending, shutdown(), workers released 1.5 s later"},
+                              {"proto": proto, "schedule": "workers stalled with a datagram each, 1000 queued, receive loop blocked sending, shutdown(), workers released 3.5 s (thorough 8 s) later"},
                               key=proto + ":send-on-closed")
                 continue
             raise vlib.Infra("shutdown driver failed: " + log[-1500:])
@@ -71,10 +72,17 @@ def end_to_end(ctx, thorough):
     rng = ctx.rng
     acked = {"ipfix": [], "netflow9": []}      # (src, template id, version) acknowledged in some incarnation
     try:
-        cycles = 5 if thorough else 3
+        cycles = 7 if thorough else 4
         for cyc in range(cycles):
+            if cyc in (2, 5):
+                # an older, much longer file (here: unparsable) is in place: the collector starts with a fresh cache, and the
+                # shorter document it saves at shutdown must replace it completely
+                for f in ("ipfix.templates", "netflow9.templates"):
+                    with open(os.path.join(d, f), "wb") as fh:
+                        fh.write(b'{"Cache":[' + b"x" * 300000)
+                acked = {"ipfix": [], "netflow9": []}
             col.start()
-            scenario = ["steady", "burst", "idle", "burst", "steady"][cyc % 5]
+            scenario = ["steady", "burst", "idle", "burst", "steady", "idle", "burst"][cyc % 7]
             sig = signal.SIGINT if cyc % 2 else signal.SIGTERM
             # after a restart: data for every acknowledged template, WITHOUT templates, is decoded at once
             if cyc > 0:
